@@ -77,13 +77,10 @@ def align_vectors(a, b, return_angle=False):
     matrix[:3, :3] = bu.dot(au.T)
 
     if return_angle:
-        # projection of a onto b
-        # first row of SVD result is normalized source vector
-        dot = np.dot(au[0], bu[0])
-        # clip to avoid floating point error
-        angle = np.arccos(np.clip(dot, -1.0, 1.0))
-        if dot < -1e-5:
-            angle += np.pi
+        # angle between the two input vectors in [0, pi]: using
+        # `arctan2(|a x b|, a . b)` is independent of the length
+        # of the inputs and accurate near both zero and pi
+        angle = np.arctan2(np.linalg.norm(np.cross(a, b)), np.dot(a, b))
         return matrix, angle
 
     return matrix
